@@ -94,7 +94,10 @@ def check_header(ctx):
         ctx.ob("C16.B1", p.qualname, ok, f"{prop} returns {fld}" if ok else f"{prop} returns {norm(r[0].value) if r else None}", where=p.where)
     uw = repo.method("Header", "updated_with", inherited=False)
     txt = [norm(s) for s in rules.func_stmts(uw.node)]
-    ok = txt == ["data = self._as_dictionary", "data.update(kwargs)", "return self.__class__(**data)"]
+    kw = uw.node.args.kwarg.arg if uw.node.args.kwarg else None
+    # one dictionary of all fields is taken, the given fields are written into that dictionary, the header is rebuilt from it
+    taken = [s.targets[0].id for s in rules.func_stmts(uw.node) if isinstance(s, ast.Assign) and len(s.targets) == 1 and isinstance(s.targets[0], ast.Name) and norm(s.value) == "self._as_dictionary"]
+    ok = len(taken) == 1 and txt == [f"{taken[0]} = self._as_dictionary", f"{taken[0]}.update({kw})", f"return self.__class__(**{taken[0]})"]
     ctx.ob("C16.P1", uw.qualname, ok, "updated_with rebuilds the header from all fields with the given ones replaced" if ok else f"updated_with is {txt}", where=uw.where)
 
 
